@@ -95,7 +95,7 @@ class C09(Property):
 
     def gen(self, cs, ctx):
         sub = ChoiceStream(cs.d[96:])
-        k = cs.weighted([110, 30, 30, 30, 24, 16, 24])
+        k = cs.weighted([110, 30, 30, 30, 24, 16, 24, 12])
         if k == 0:
             text = invalid.base_program(sub, budget=20)
         elif k == 1:
@@ -111,6 +111,11 @@ class C09(Property):
             g = PyGen(sub, budget=4 + cs.choice(12))
             items = [('line', g.expr('test'))] if cs.bool() else g.stmt(0)
             text = render(items).text.strip('\n') if cs.bool() else render(items).text
+        elif k == 7:
+            # nothing but blanks, line ends, comments, joins and white space that is not Python's: every entry point sees the
+            # same (empty or erroneous) text
+            text = ''.join(cs.pick([' ', '\t', '\n', '\r\n', '\r', '\x0c', ' \t', '\t ', '#c', '# \u00e9\n', '\\\n', '\x0b', '\xa0', '\u2028', '\u3000', '\ufeff', '  \n', '\n  '])
+                           for _ in range(cs.choice(6)))
         elif k == 6:
             # one expression that starts with a soft keyword used as a name: module / interactive mode decide by look-ahead
             # over the logical line whether it is a keyword, expression mode never asks - the entry points must still agree
@@ -138,6 +143,8 @@ class C09(Property):
         off = cs.pick([1, 7, 400, 1 << 16, 1 << 31, M32 - n, 0])
         typed = cs.pick(['Suite', 'Stmt', 'Expr', 'Identifier', 'Constant', 'ModModule', 'ModExpression', 'ModInteractive'] +
                         ['Stmt' + x for x in STMT_KINDS] + ['Expr' + x for x in EXPR_KINDS])
+        if k == 7:
+            typed = cs.pick(['Suite', 'Suite', 'ModModule', 'Stmt', 'ModInteractive', 'Expr', 'ModExpression'])
         return {'k': 'text', 'text': text, 'off': off, 'typed': typed}
 
     def nontrivial(self, case, ctx):
